@@ -2,7 +2,7 @@
    Statements only (copied from the lemma libraries); every proof is a bare
    `exact`; see the cited files in coq/proofs for the proofs. *)
 From Coq Require Import List NArith ZArith Bool Arith Sorting.Sorted Sorting.Permutation.
-From D2P Require Import Str Err Xml TableTypes Tables Fmt Bullets Merge Collector Walk ShapeFacts TokFacts FrameFacts BulletsFacts MarkerFacts.
+From D2P Require Import Str Err Xml TableTypes Tables Fmt Bullets Merge Collector Walk ShapeFacts TokFacts FrameFacts BulletsFacts MarkerFacts Iter Output Paths Package Content Utilities UtilFacts.
 Import ListNotations.
 
 (* a hyperlink whose relationship id resolves contributes, with html on or off, the tokens <a href=TARGET> BODY </a> where BODY is what its children contribute *)
@@ -111,3 +111,51 @@ Theorem C10_label_prefixes_first_paragraph :
     /\ toks_of (p_runs p) = raw (kind ++ id ++ [41; 9]) ++ rest.
 Proof. exact queued_label_prefixes_next_paragraph. Qed.
 Print Assumptions C10_label_prefixes_first_paragraph.
+
+(* the link helper's pattern, re-implemented on code points (Utilities.link_match, compared with the re module on every run): it matches exactly the strings <a href=Q h Q> t </a> rest with h non-empty and quote-free, t non-empty and free of < *)
+Theorem C10_link_pattern_exact :
+  forall run h t,
+  link_match run = Some (h, t) <->
+  exists rest, run = s_a_open ++ h ++ s_quote_gt ++ t ++ s_a_close ++ rest
+               /\ h <> [] /\ ~ In 34 h /\ t <> [] /\ ~ In 60 t.
+Proof. exact link_match_spec. Qed.
+Print Assumptions C10_link_pattern_exact.
+
+(* END TO END: if a paragraph record of the document holds a link run (the shape C10_link_is_one_run produces) with a non-empty quote-free target and non-empty text free of angle brackets, get_links yields (target, text) *)
+Theorem C10_get_links_yields_rendered_link :
+  forall a l pars ps p link body,
+  get_links a = Ok l ->
+  document_pars a default_opts = Ok pars -> iter_at_depth pars 4%nat = Ok (map RA ps) ->
+  In p ps ->
+  In {| r_style := []; r_toks := link_toks link body |} (p_runs p) ->
+  link <> [] -> ~ In 34 link -> render false body <> [] -> ~ In 60 (render false body) ->
+  In (link, render false body) l.
+Proof. exact get_links_yields_link. Qed.
+Print Assumptions C10_get_links_yields_rendered_link.
+
+(* get_links = the matching run strings of document_runs (default options), in order, nothing else *)
+Theorem C10_get_links_exactly_the_matches :
+  forall a l, get_links a = Ok l <->
+  exists ss, run_leaves a = Ok ss /\ l = filter_map link_match ss.
+Proof. exact get_links_iff. Qed.
+Print Assumptions C10_get_links_exactly_the_matches.
+
+(* document text (escaped) is never mistaken for a link *)
+Theorem C10_escaped_text_is_never_a_link :
+  forall s,
+  link_match (render true (map TTxt s)) = None.
+Proof. exact link_match_escaped_text. Qed.
+Print Assumptions C10_escaped_text_is_never_a_link.
+
+(* what happens when the text does contain <: the pair is not (target, text); the text is cut at a literal </a> (outside the property's quantifier, stated for completeness) *)
+Theorem C10_bracket_text_exact :
+  forall html link body t1 t2,
+  link <> [] -> ~ In 34 link ->
+  render html body = t1 ++ 60 :: t2 -> ~ In 60 t1 ->
+  link_match (render html (link_toks link body))
+  = match t1, strip_prefix s_a_close_tl (t2 ++ s_a_close) with
+    | _ :: _, Some _ => Some (link, t1)
+    | _, _ => None
+    end.
+Proof. exact link_match_bracket_exact. Qed.
+Print Assumptions C10_bracket_text_exact.
